@@ -29,6 +29,23 @@ impl Frame {
     pub fn place_h(&self, p: P2, h: f64) -> Point3D {
         self.place(p) + self.n * (h as Float)
     }
+    /// the same plane with the in-plane geometry scaled by `s` (heights above the plane stay absolute)
+    pub fn scaled(&self, s: f64) -> Frame {
+        Frame { o: self.o, u: self.u * (s as Float), v: self.v * (s as Float), n: self.n, kind: self.kind }
+    }
+}
+
+/// a frame at the origin turned by a right angle computed with sin/cos: the in-plane axes carry 1e-17-level noise that is
+/// NOT absorbed by an offset, so an edge lying on one of the in-plane axes has a noise-level extent along a world axis
+pub fn noise_frame_at_origin(r: &mut Rng) -> Frame {
+    let a = ((1 + 2 * r.below(2)) as Float) * 90.;
+    let (s, c) = (a.to_radians().sin(), a.to_radians().cos());
+    let (u, v) = match r.below(3) {
+        0 => (Vector3D::new(c, s, 0.), Vector3D::new(-s, c, 0.)),
+        1 => (Vector3D::new(c, 0., -s), Vector3D::new(0., 1., 0.)),
+        _ => (Vector3D::new(0., c, s), Vector3D::new(0., -s, c)),
+    };
+    Frame { o: Point3D::new(0., 0., 0.), u, v, n: u.cross(v), kind: "right-angle-noise" }
 }
 
 pub fn any_frame(r: &mut Rng) -> Frame {
